@@ -354,10 +354,10 @@ func genEnum(t *rapid.T) Case {
 // pigeonhole refutation inside the last optimisation round: hundreds to thousands of conflicts with restarts
 // and clause-database reductions while the bound constraints and the facts they implied are in force.
 type SoftPHP struct {
-	Holes int   `json:"holes"`
-	Cap   int   `json:"cap"`
-	Procs int   `json:"procs"`
-	NbMax int   `json:"nbmax,omitempty"`
+	Holes int    `json:"holes"`
+	Cap   int    `json:"cap"`
+	Procs int    `json:"procs"`
+	NbMax int    `json:"nbmax,omitempty"`
 	Via   string `json:"via"` // wcnf | solver
 }
 
